@@ -214,7 +214,9 @@ func c08Gen(r *core.Rng) *c08Case {
 		var p yang.Piece
 		switch {
 		case n == 1 && r.Chance(1, 5):
-			p = yang.Piece{Kind: yang.Unquoted, Raw: core.Pick(r, []string{"word", "a.b-c_d", "http://x/y", "a/*b", "é日", "1..5|7", "x:y", "a\\nb", "x'y", "a=b"})}
+			p = yang.Piece{Kind: yang.Unquoted, Raw: core.Pick(r, []string{"word", "a.b-c_d", "http://x/y", "a/*b", "é日", "1..5|7", "x:y", "a\\nb", "x'y", "a=b",
+				// blanks of Unicode that are no separators in YANG: part of the token
+				"10\u00a0km", "km\u00a0", "\u00a0km", "全角\u3000空白", "a\u2009b", "x\u0085y", "z\u2028"})}
 		case r.Chance(1, 4):
 			p = yang.Piece{Kind: yang.Single, Raw: c08Single(r)}
 		default:
